@@ -100,8 +100,9 @@ pub fn exec(regs: &Regs, op: &str, p: &[&str]) -> R {
         "f4.zero" | "f4.one" | "f12.zero" | "f12.one" => 0,
         "f4.add" | "f4.sub" | "f4.mul" | "f4.mul_1" | "f4.frob" | "f4.scale" | "f4.scale_fq" | "f4.new" | "f4.eq"
         | "f12.add" | "f12.sub" | "f12.mul" | "f12.mul_015" | "f12.frob" | "f12.scale" | "f12.pow128"
-        | "f12.powfr" | "f12.eq" | "ml.jac" | "ml.prep" | "raw.fq2.scale" => 2,
-        "f12.new" => 3,
+        | "f12.powfr" | "f12.eq" | "ml.jac" | "ml.prep" | "raw.fq2.scale" | "ln.etan" | "ln.pline" => 2,
+        "f12.new" | "ln.eline" => 3,
+        "ln.pval" => 4,
         "sop.2" => 4,
         "sop.4" => 8,
         _ => 1,
@@ -200,6 +201,11 @@ pub fn exec(regs: &Regs, op: &str, p: &[&str]) -> R {
         }),
         "raw.g1.double" => Ok(Out::V(Val::G1(vh::g1_from(vh::g1_inner(&a_g1(regs, p[0])?).double())))),
         "raw.g2.double" => Ok(Out::V(Val::G2(vh::g2_from(vh::g2_inner(&a_g2(regs, p[0])?).double())))),
+        // ---------------- individual line functions of the two Miller loops (optional hooks) ----------------
+        #[cfg(john_yu_sm9_core_verif_lines)]
+        "ln.etan" | "ln.eline" | "ln.ptan" | "ln.pline" | "ln.pval" | "ln.pi1" | "ln.pi2" => lines(regs, op, p),
+        #[cfg(not(john_yu_sm9_core_verif_lines))]
+        "ln.etan" | "ln.eline" | "ln.ptan" | "ln.pline" | "ln.pval" | "ln.pi1" | "ln.pi2" => Ok(Out::Text("unsupported".into())),
         // ---------------- interleaved sum of products ----------------
         "sop.2" => {
             let a = [rfq(regs, p[0])?, rfq(regs, p[1])?];
@@ -211,6 +217,41 @@ pub fn exec(regs: &Regs, op: &str, p: &[&str]) -> R {
             let b = [rfq(regs, p[4])?, rfq(regs, p[5])?, rfq(regs, p[6])?, rfq(regs, p[7])?];
             vfq(vh::sum_of_products_4(&a, &b))
         }
+        _ => Err(format!("unknown op {}", op)),
+    }
+}
+
+#[cfg(john_yu_sm9_core_verif_lines)]
+fn lines(regs: &Regs, op: &str, p: &[&str]) -> R {
+    use sm9_core::verif_hooks::verif_lines as vl;
+    let f2 = |x: &RawFq2| hx(&vh::fq2_from(*x).to_slice());
+    match op {
+        // numerator and denominator of the tangent at T / the chord through T and Q, evaluated at P (P must have z = 1)
+        "ln.etan" => {
+            let (n, d) = vl::eval_g_tangent(&vh::g2_inner(&a_g2(regs, p[0])?), &vh::g1_inner(&a_g1(regs, p[1])?));
+            Ok(Out::Text(format!("{} {}", hx(&n.to_slice()), hx(&d.to_slice()))))
+        }
+        "ln.eline" => {
+            let (n, d) = vl::eval_g_line(&vh::g2_inner(&a_g2(regs, p[0])?), &vh::g2_inner(&a_g2(regs, p[1])?), &vh::g1_inner(&a_g1(regs, p[2])?));
+            Ok(Out::Text(format!("{} {}", hx(&n.to_slice()), hx(&d.to_slice()))))
+        }
+        // coefficient triple of the prepared loop and the updated accumulator: "c0 c1 c2 T'"
+        "ln.ptan" => {
+            let mut t = vh::g2_inner(&a_g2(regs, p[0])?);
+            let c = vl::g_tangent(&mut t);
+            Ok(Out::Text(format!("{} {} {} {}", f2(&c.0), f2(&c.1), f2(&c.2), g2s(&vh::g2_from(t)))))
+        }
+        "ln.pline" => {
+            let mut t = vh::g2_inner(&a_g2(regs, p[0])?);
+            let c = vl::g_line(&mut t, &vh::g2_inner(&a_g2(regs, p[1])?));
+            Ok(Out::Text(format!("{} {} {} {}", f2(&c.0), f2(&c.1), f2(&c.2), g2s(&vh::g2_from(t)))))
+        }
+        "ln.pval" => {
+            let c = (rfq2(regs, p[0])?, rfq2(regs, p[1])?, rfq2(regs, p[2])?);
+            v12(vl::prepared_line_value(&c, &vh::g1_inner(&a_g1(regs, p[3])?)))
+        }
+        "ln.pi1" => Ok(Out::V(Val::G2(vh::g2_from(vl::point_pi1(&vh::g2_inner(&a_g2(regs, p[0])?)))))),
+        "ln.pi2" => Ok(Out::V(Val::G2(vh::g2_from(vl::point_pi2(&vh::g2_inner(&a_g2(regs, p[0])?)))))),
         _ => Err(format!("unknown op {}", op)),
     }
 }
